@@ -29,6 +29,8 @@ for m in muts:
     t0 = time.time()
     try:
         subprocess.run(["git", "-C", "/repo", "worktree", "add", "--detach", d, "HEAD"], check=True, capture_output=True)
+        if os.path.exists("/repo/spsdk/__version__.py"):  # generated, untracked file of the real tree
+            shutil.copy("/repo/spsdk/__version__.py", os.path.join(d, "spsdk", "__version__.py"))
         if "patch" in m:
             subprocess.run(["git", "-C", d, "apply", m["patch"]], check=True, capture_output=True)
         else:
@@ -50,7 +52,7 @@ for m in muts:
             r = subprocess.run([os.path.join(VERIF, "check"), pid, "--tier", a.tier], env=env, capture_output=True, text=True)
             lines = [l for l in r.stdout.splitlines() if l.startswith(("VIOLATION", "  obligation", "CHECKER", "UNDECIDED"))]
             hit = r.returncode == 1 and (not m.get("expect") or any(m["expect"] in l for l in lines))
-            verdicts.append((pid, r.returncode, hit, lines[:4]))
+            verdicts.append((pid, r.returncode, hit, [l for l in lines if m.get("expect", "") in l][:2] + lines[:2]))
         ok = any(v[2] for v in verdicts)
         print(f"{'KILLED ' if ok else 'MISSED '} {m['id']}  ({time.time()-t0:.0f}s)")
         for pid, rc, hit, lines in verdicts:
